@@ -18,7 +18,15 @@ Mirrored Go code (`internal/target/queue/queue.go`, `framework/module/msgmetadat
   a read/parse error ends the attempt before the target is called and nothing re-schedules it;
 * `deliver`: `Target.Start(meta.MsgMeta.DeepCopy(), meta.From)`, `AddRcpt` for each of `meta.To`,
   `Body`/`BodyNonAtomic(header, body)` iff a recipient was accepted;
-* `tryDelivery`: `meta.To = newRcpts; updateMetadataOnDisk(meta)` or `removeFromDisk`;
+* `tryDelivery`: `meta.To = newRcpts; updateMetadataOnDisk(meta)` or `removeFromDisk`; before
+  either, `emitDSN(meta, header, failedRcpts)` when it gave somebody up in this attempt;
+* `emitDSN`: nothing without a bounce pipeline or for a null `OriginalFrom`; otherwise
+  `dsn.GenerateDSN(meta.MsgMeta.SMTPOpts.UTF8, ..., header, ...)` - it fails when `meta.From` or a
+  reported recipient (`OriginalRcpts[rcpt]` if there is one) has no representation in the chosen
+  format (`address.SelectIDNA`, an oracle here) - and the report goes to `meta.From` through the
+  bounce pipeline with the original message's SMTPUTF8 flag.  It READS metadata and header: neither
+  the metadata object, nor the header value (whose field slice is shared with every other holder
+  of the value), nor the spool is written;
 * restart: `Close` + `readDiskQueue` of a new queue: every `<id>.meta` (whose `<id>.header` and
   `<id>.body` exist - of ANY length, an empty body file is a message with an empty body) is
   scheduled as `queueSlot{ID}`; also when `Commit` was answered by a queue whose time wheel was
@@ -116,17 +124,35 @@ structure Seen where
   content : Option (Header × Bytes)
 deriving DecidableEq, Repr
 
+/-- A failure report handed to the bounce pipeline: who it is sent to (`meta.From`), the SMTPUTF8
+flag it is generated and sent with, the header of the failed message it quotes. -/
+structure Report where
+  to : Str
+  utf8 : Bool
+  hdr : Header
+deriving DecidableEq, Repr
+
 inductive Ev
   | seen (s : Seen) (connPresent : Bool)
   | readError
   | wrote (doc : QMeta)
   | removed
+  | report (r : Report)
+  | reportFailed
 deriving Repr
 
+/-- The bounce side of one attempt (a bounce pipeline is configured):
+`failed to` = the recipients `tryDelivery` gives up in this attempt (`failedRcpts`);
+`reportable utf8 s` = `address.SelectIDNA utf8 s` succeeds (library oracle). -/
+structure Dsn where
+  failed : List Str → List Str
+  reportable : Bool → Str → Bool
+
 /-- `acc to` = some recipient of `to` was accepted (so the body was handed over);
-`next to` = the recipients `tryDelivery` keeps for the next attempt. -/
+`next to` = the recipients `tryDelivery` keeps for the next attempt;
+`dsn` = none: no bounce pipeline configured (`q.dsnPipeline == nil`). -/
 inductive Step
-  | attempt (acc : List Str → Bool) (next : List Str → List Str)
+  | attempt (acc : List Str → Bool) (next : List Str → List Str) (dsn : Option Dsn)
   | restart
 
 structure St where
@@ -144,31 +170,51 @@ def seenOf (m : QMeta) (h : Header) (body : Bytes) (accepted : Bool) : Seen :=
     tlsRequireOverride := m.msgMeta.tlsRequireOverride, originalRcpts := m.msgMeta.originalRcpts,
     content := if accepted then some (h, body) else none }
 
+/-- the address a failed recipient is reported under: `OriginalRcpts[rcpt]` unless absent/empty -/
+def reportedAs (orc : List (Str × Str)) (r : Str) : Str :=
+  match orc.lookup r with
+  | some o => if o = 0 then r else o
+  | none => r
+
+/-- `if len(failedRcpts) != 0 { q.emitDSN(meta, header, failedRcpts) }`: an event, no state. -/
+def emitDSN (m : QMeta) (h : Header) : Option Dsn → List Ev
+  | none => []
+  | some dsn =>
+    let failed := dsn.failed m.to
+    if failed = [] then [] else
+    if m.msgMeta.originalFrom = 0 then [] else
+    -- `X-Maddy-Sender` is left out for a null sender; an empty `Final-Recipient` is an error
+    let okS : Bool := m.sender = 0 || dsn.reportable m.msgMeta.utf8 m.sender
+    let okR (s : Str) : Bool := s != 0 && dsn.reportable m.msgMeta.utf8 s
+    if okS && (failed.map (reportedAs m.msgMeta.originalRcpts)).all okR then
+      [.report ⟨m.sender, m.msgMeta.utf8, h⟩]
+    else [.reportFailed]
+
 /-- one attempt with metadata `m` and header `h` (from memory or from the spool) -/
 def attempt (vis : Vis) (co : Str → Str) (d : Disk) (m : QMeta) (h : Header)
-    (acc : List Str → Bool) (next : List Str → List Str) : St × List Ev :=
+    (acc : List Str → Bool) (next : List Str → List Str) (dsn : Option Dsn) : St × List Ev :=
   let ev := Ev.seen (seenOf m h d.bodyFile (acc m.to)) m.msgMeta.conn.isSome
-  if next m.to = [] then (⟨none, none, false⟩, [ev, .removed])
+  if next m.to = [] then (⟨none, none, false⟩, ev :: emitDSN m h dsn ++ [.removed])
   else
     let doc := encodeMeta vis co { m with to := next m.to }
-    (⟨none, some { d with metaFile := doc }, true⟩, [ev, .wrote doc])
+    (⟨none, some { d with metaFile := doc }, true⟩, ev :: emitDSN m h dsn ++ [.wrote doc])
 
 def step (vis : Vis) (co : Str → Str) (s : St) : Step → St × List Ev
   | .restart =>
     match s.disk with
     | none => (s, [])
     | some _ => ({ s with slot := none, scheduled := true }, [])
-  | .attempt acc next =>
+  | .attempt acc next dsn =>
     match s.disk with
     | none => (s, [])
     | some d =>
       if !s.scheduled then (s, []) else
       match s.slot with
-      | some (m, h) => attempt vis co d m h acc next
+      | some (m, h) => attempt vis co d m h acc next dsn
       | none =>
         match readHeader d.hdrFile with
         | .error _ => ({ s with scheduled := false }, [.readError])
-        | .ok h => attempt vis co d d.metaFile h acc next
+        | .ok h => attempt vis co d d.metaFile h acc next dsn
 
 def runFrom (vis : Vis) (co : Str → Str) : St → List Step → St × List Ev
   | s, [] => (s, [])
@@ -193,9 +239,14 @@ def docs : List Ev → List QMeta
   | .wrote d :: r => d :: docs r
   | _ :: r => docs r
 
+def reports : List Ev → List Report
+  | [] => []
+  | .report r :: rest => r :: reports rest
+  | _ :: rest => reports rest
+
 def attemptsOf : List Step → List ((List Str → Bool) × (List Str → List Str))
   | [] => []
-  | .attempt a n :: r => (a, n) :: attemptsOf r
+  | .attempt a n _ :: r => (a, n) :: attemptsOf r
   | .restart :: r => attemptsOf r
 
 /-- The property's right-hand side, with no spool in it: every attempt is handed the accepted
